@@ -676,7 +676,7 @@ def run(ctx):
             break
 
     # ---------------------------------------------------------------- outer: programs x schedules
-    progs = programs(ctx.thorough) if not os.environ.get("C11_ONLY_RANDOM") else []     # (development switch)
+    progs = programs(ctx.thorough)
     scheds = schedules(rng, ctx.thorough)
     reqs, meta = [], []
     for pi, (name, expr, expected, vclock) in enumerate(progs):
@@ -759,7 +759,7 @@ def run(ctx):
         os.unlink(os.path.join(tdir, f))
 
     # ---------------------------------------------------------------- round 2: random thread programs
-    n_lines += run_random(ctx, d, emb, exe, tdir, replay_base, nprog=(int(os.environ.get("C11_NPROG", "0")) or (300 if not ctx.thorough else 2000)),
+    n_lines += run_random(ctx, d, emb, exe, tdir, replay_base, nprog=(300 if not ctx.thorough else 2000),
                           nsched=(3 if not ctx.thorough else 4))
     ctx.cov["trace_lines_compared"] = n_lines
     ctx.sample(dict(kind="inner", traces=ctx.cov["traces_validated_against_impl"], lines=n_lines))
